@@ -7,20 +7,24 @@ SEEDED = os.path.join(VERIF, "seeded")
 names = sys.argv[1:] or sorted(d for d in os.listdir(SEEDED) if os.path.isdir(os.path.join(SEEDED, d)))
 res_path = os.path.join(SEEDED, "results.json")
 results = json.load(open(res_path)) if os.path.exists(res_path) else {}
-assert subprocess.run("git -C /repo status --porcelain", shell=True, capture_output=True, text=True).stdout.strip() == "", "/repo not clean"
+# a scratch worktree of /repo's HEAD stands in for /repo (VERIF_REPO), so that /repo itself stays usable meanwhile
+WT = os.environ.get("SEED_WT", "/tmp/wt_seedrun")
+if not os.path.exists(WT):
+    subprocess.run("git -C /repo worktree add -q --detach %s HEAD" % WT, shell=True, check=True)
+subprocess.run("git -C %s checkout -q --detach $(git -C /repo rev-parse HEAD) && git -C %s checkout -q -- ." % (WT, WT), shell=True, check=True)
 for n in names:
     d = os.path.join(SEEDED, n)
     prop = json.load(open(os.path.join(d, "meta.json")))["property"]
-    p = subprocess.run("git -C /repo apply %s/patch.diff" % d, shell=True, capture_output=True, text=True)
+    p = subprocess.run("git -C %s apply %s/patch.diff" % (WT, d), shell=True, capture_output=True, text=True)
     if p.returncode != 0:
         results[n] = {"error": "patch does not apply: " + p.stderr[-300:]}
         continue
     t0 = time.time()
     try:
-        c = subprocess.run(["python3", os.path.join(VERIF, "tools", "check.py"), prop, "--tier", os.environ.get("VERIF_TIER", "quick")], capture_output=True, text=True, cwd=VERIF, timeout=3600)
+        c = subprocess.run(["python3", os.path.join(VERIF, "tools", "check.py"), prop, "--tier", os.environ.get("VERIF_TIER", "quick")], capture_output=True, text=True, cwd=VERIF, timeout=3600, env=dict(os.environ, VERIF_REPO=WT))
         out, rc = c.stdout, c.returncode
     finally:
-        subprocess.run("git -C /repo checkout -- .", shell=True)
+        subprocess.run("git -C %s checkout -- ." % WT, shell=True)
     viol = re.findall(r"^VIOLATION .*$", out, re.M)
     und = re.findall(r"^UNDECIDED: .*$", out, re.M)
     results[n] = {"property": prop, "exit": rc, "verdict": "DETECTED" if rc == 1 else ("undecided" if rc == 2 else "MISSED"),
